@@ -190,7 +190,8 @@ Qed.
 Definition time_ok (O : oracles) (t : time) : Prop :=
   o_parse_time O (o_fmt_time O t) = Some t /\ o_fmt_time O t <> [] /\
   forallb (fun c => memb c time_alphabet) (o_fmt_time O t) = true.
-Definition float_ok (O : oracles) (b : N) : Prop := o_parse_float O (o_fmt_float O b) = Some b.
+Definition float_ok (O : oracles) (b : N) : Prop :=
+  o_parse_float O (o_fmt_float O b) = Some b /\ ~ In x0a (o_fmt_float O b).
 
 Record quote_laws (O : oracles) : Prop := mkQLaws {
   (* strconv: Unquote(Quote(s)) = s for every string *)
@@ -199,7 +200,9 @@ Record quote_laws (O : oracles) : Prop := mkQLaws {
      escape is left open (escaped_ok) *)
   law_quote_shape : forall s, exists m, o_quote O s = c_quote :: m ++ [c_quote] /\ escaped_ok m = true;
   (* Quote escapes tab, newline, form feed, CR; a space appears only if the input has one *)
-  law_quote_ws : forall s, memb c_space s = false -> forallb (fun c => negb (re_space c)) (o_quote O s) = true
+  law_quote_ws : forall s, memb c_space s = false -> forallb (fun c => negb (re_space c)) (o_quote O s) = true;
+  (* a newline is always escaped *)
+  law_quote_nl : forall s, ~ In x0a (o_quote O s)
 }.
 
 Record oracle_laws (O : oracles) : Prop := mkLaws {
@@ -233,7 +236,7 @@ Definition gdom_object (O : oracles) (o : object) : Prop :=
   | OInvalid => False
   end.
 Definition gdom_triple (O : oracles) (t : triple) : Prop :=
-  dom_node (subj t) = true /\ memb x0c (ntype (subj t)) = false /\ gdom_pred O (tpred t) /\ gdom_object O (tobj t).
+  dom_node (subj t) = true /\ type_split_free (ntype (subj t)) = true /\ gdom_pred O (tpred t) /\ gdom_object O (tobj t).
 
 Section WithOracles.
 Variable O : oracles.
@@ -305,7 +308,7 @@ Proof.
     cbn in Hwf. rewrite (parse_fmt_int _ Hwf). reflexivity.
   - replace (str_eqb s_float64 s_bool) with false by reflexivity. replace (str_eqb s_float64 s_int64) with false by reflexivity.
     replace (str_eqb s_float64 s_float64) with true by reflexivity.
-    unfold float_ok in Hdom. rewrite Hdom. reflexivity.
+    destruct Hdom as [Hdom _]. rewrite Hdom. reflexivity.
   - reflexivity.
   - replace (str_eqb s_blob s_bool) with false by reflexivity. replace (str_eqb s_blob s_int64) with false by reflexivity.
     replace (str_eqb s_blob s_float64) with false by reflexivity. replace (str_eqb s_blob s_text) with false by reflexivity.
@@ -572,15 +575,8 @@ Proof.
   (* subject / predicate split *)
   assert (HsPq : exists sP', sP = c_quote :: sP') by (rewrite Ep; cbn [app]; eauto).
   destruct HsPq as [sP' HsP'].
-  assert (Hty_nows : forallb (fun x => negb (re_space x)) ty = true).
-  { apply no_ws_of_no. intros c Hc. unfold type_ok in Hty. apply andb_true_iff in Hty. destruct Hty as [Hty _].
-    apply andb_true_iff in Hty. destruct Hty as [Hty _]. apply negb_true_iff in Hty.
-    destruct (re_space c) eqn:Ec; [|reflexivity]. exfalso.
-    unfold re_space in Ec. apply memb_In in Ec. cbn in Ec.
-    assert (Hex : existsb (fun c0 => memb c0 [x20; x09; x0a; x0d]) ty = false) by exact Hty.
-    destruct Ec as [Ec|[Ec|[Ec|[Ec|[Ec|[]]]]]]; subst c;
-      try (assert (X : existsb (fun c0 => memb c0 [x20; x09; x0a; x0d]) ty = true) by (apply existsb_exists; eexists; split; [exact Hc | reflexivity]); congruence).
-    apply memb_false in Hff. exact (Hff Hc). }
+  assert (Hfree : find_split x3e [x22] (ty ++ [c_lt]) 0 = None).
+  { unfold type_split_free in Hff. destruct (find_split x3e [x22] (ty ++ [x3c]) 0) eqn:E; [discriminate | exact E]. }
   assert (Hid_nogt : ~ In c_gt (c_lt :: id)).
   { intros [X|X]; [discriminate|]. unfold id_ok in Hid. apply andb_true_iff in Hid. destruct Hid as [Hid _].
     apply negb_true_iff in Hid.
@@ -590,7 +586,7 @@ Proof.
   { unfold p_split. rewrite Hraw. unfold sN at 1, print_node. cbn [ntype nid].
     replace ((ty ++ [c_lt] ++ id ++ [c_gt]) ++ [c_tab] ++ sP ++ [c_tab] ++ sO)
       with (ty ++ c_lt :: (id ++ c_gt :: c_tab :: sP ++ [c_tab] ++ sO)) by lst.
-    rewrite find_split_skip_nows by (try exact Hty_nows; reflexivity).
+    rewrite find_split_extend by reflexivity. rewrite Hfree.
     change (c_lt :: id ++ c_gt :: c_tab :: sP ++ [c_tab] ++ sO) with ((c_lt :: id) ++ c_gt :: c_tab :: sP ++ [c_tab] ++ sO).
     rewrite find_split_skip_noopn by exact Hid_nogt.
     rewrite HsP'. cbn [app]. rewrite find_split_hit by reflexivity.
@@ -676,7 +672,7 @@ Lemma dom_triple_g : forall t, dom_triple t = true -> gdom_triple O t.
 Proof.
   intros t H. unfold dom_triple in H.
   apply andb_true_iff in H. destruct H as [H Ho]. apply andb_true_iff in H. destruct H as [H Hp].
-  apply andb_true_iff in H. destruct H as [Hs Hff]. apply negb_true_iff in Hff.
+  apply andb_true_iff in H. destruct H as [Hs Hff].
   repeat split; try assumption; [apply dom_pred_g; exact Hp | apply dom_pred_g; exact Hp | apply dom_object_g; exact Ho].
 Qed.
 
